@@ -14,6 +14,9 @@ log = subprocess.run(["git", "-C", "/repo", "log", "--format=%h\t%s", "0be7ea7..
 fixes = [l.split("\t", 1) for l in log if "\tfix:" in l]
 
 
+SUPERSEDED = set(f["fix_commit"][:7] for f in kf if f.get("superseded") and f.get("fix_commit"))
+
+
 def owner(h):
     for f in kf:
         if f.get("fix_commit", "")[:7] == h[:7]:
@@ -26,6 +29,8 @@ def run(item):
     fid, prop, also = owner(h)
     if prop is None:
         return {"commit": h, "subject": subj, "status": "no-owner"}
+    if h[:7] in SUPERSEDED:
+        return {"commit": h, "finding": fid, "property": prop, "status": "superseded", "subject": subj[:90]}
     scratch = tempfile.mkdtemp(prefix="vfself_", dir="/tmp")
     try:
         shutil.copytree("/repo/gfapy", os.path.join(scratch, "gfapy"))
@@ -34,12 +39,16 @@ def run(item):
         if r.returncode != 0:
             return {"commit": h, "finding": fid, "property": prop, "status": "reverse-does-not-apply"}
         res = {}
-        for c in [prop] + [a for a in also if a != prop][:0]:
+        for c in [prop] + [a for a in also if a != prop]:
+            if any(v == 1 for v in res.values()):
+                break  # caught already
             env = dict(os.environ, VERIF_GFAPY_ROOT=scratch, VERIF_NO_REGRESS="1", VERIF_EVIDENCE_DIR=os.path.join(scratch, "ev"),
                        VERIF_REPLAY_DIR=os.path.join(scratch, "rp"), VERIF_NPROC="4")
             r = subprocess.run([os.path.join(HERE, "check"), c], env=env, capture_output=True, text=True)
             res[c] = r.returncode
-        return {"commit": h, "finding": fid, "property": prop, "status": "caught" if res[prop] == 1 else ("harness-error" if res[prop] == 2 else "MISSED"),
+        status = "caught" if res[prop] == 1 else ("caught-by-other" if any(v == 1 for v in res.values()) else
+                                                   ("harness-error" if res[prop] == 2 else "MISSED"))
+        return {"commit": h, "finding": fid, "property": prop, "status": status,
                 "exit": res, "subject": subj[:90]}
     finally:
         shutil.rmtree(scratch, ignore_errors=True)
